@@ -215,7 +215,7 @@ def random_wf_view(rng, depth, content_len, allow_rev=True):
         elif k == "mdf":
             spec, ln = ("mdf", spec), (ln // 2352) * 2048
         elif k == "rev":
-            w = rng.choice([1, 2, 2, 4])
+            w = rng.choice([1, 2, 2, 3, 4, 6, 8])
             if ln < w:
                 w = 1
             size = rng.randint(1, ln // w) * w
